@@ -94,3 +94,26 @@ claim('C20', 'proof',
       'of every key/leaf and the remaining render methods (`complex_value`, `content`, controls) are covered by the bounded tier with a strict tokenizer.',
       'Trusted: engine; html.escape removes < > & " \' (stdlib); class names are identifiers; view options (title, colors, css classes) are not user data.',
       'contract-based deductive verification (pyvc escape-flow/trace obligations) + bounded stand-in (strict HTML tokenizer)', 'DESIGN.md 5/C20')
+claim('C01', 'proof',
+      'Kernel of the tree invariant on the real code: `_relocate_if_symbolic` (for list, dict and object-attribute containers) returns a leaf untouched, '
+      'returns a symbolic node with parent = the container\'s parent-for-children and path = container path + key, adopts the node object itself only if it was '
+      'free or already in that slot and otherwise adopts a copy while the original keeps parent and path (one object never in two places); the list write '
+      'primitive, `__setitem__`, `__delitem__` and `pop` detach (sym_setparent(None)) the very child they remove or replace, for lists of any length. '
+      'The whole-tree invariant over histories is checked by the bounded tier (well-formedness walk after every step of all short histories).',
+      'Trusted: engine; assumed contract of `Symbolic.clone` (fresh parentless copy, see C07) and of `_update_children_paths` (recursive re-addressing); '
+      'acyclicity (inserting a node below itself) is not proved and is a bounded-tier case; Dict/Object mutators are bounded-tier only.',
+      'contract-based deductive verification (pyvc small-heap + trace obligations) + bounded stand-in over histories', 'DESIGN.md 5/C01')
+claim('C05', 'proof',
+      'Persistence kernel: `MemoryFileSystem._internal_path` strips exactly the prefix for every path (string VC), hence distinct paths never share a file; '
+      'opening an existing in-memory file for writing presents an empty buffer, so a read returns exactly the last content written. JSON round trips of all '
+      'value families, both file systems under save/overwrite/load histories, record sequences, pickle and deepcopy are covered by the bounded tier.',
+      'Trusted: engine, str.startswith / slicing in the SMT string theory, StringIO seek/truncate axioms. The JSON codec lemma (tuple marker, int-key '
+      'encoding) is not yet under contract.',
+      'contract-based deductive verification (pyvc, string VCs) + bounded stand-in (generated value universe, file-system histories)', 'DESIGN.md 5/C05')
+claim('C07', 'proof',
+      '`Dict._sym_clone` and `List._sym_clone` for containers with any number of children: the copy is constructed with value_spec, allow_partial, '
+      'accessor_writable and sealed of the original; in every iteration a symbolic child (and every child when deep) is replaced by `base.clone(child, deep, memo)` '
+      'and a leaf of a shallow clone is shared as is (LOOP-BODY obligation); the original is not written. Equality, independence under later mutation, '
+      'Object/Ref/DNA/hyper clones and copy.copy/deepcopy are covered by the bounded tier.',
+      'Trusted: engine; `base.clone` on children is the induction hypothesis; constructors establish a well-formed tree (C01).',
+      'contract-based deductive verification (pyvc loop contracts) + bounded stand-in', 'DESIGN.md 5/C07')
